@@ -130,7 +130,13 @@ type nodeCase struct {
 	ContFail bool   `json:"cf"`
 	ContSkip bool   `json:"cs"`
 	Limit    int    `json:"limit"`
-	Pre      int    `json:"pre"`           // 0 none, 1 met, 2 unmet
+	// 0 none, 1 met, 2 unmet, 3 harness-controlled (PreVal);
+	// 4 CANNOT BE EVALUATED: the command substitution of the condition exits with an error ("`false`"),
+	// 5 cannot be evaluated: the command of the substitution cannot be started at all,
+	// 6 `expected: re:<regexp>` that matches the value (met), 7 `re:` that does not match (unmet),
+	// 8 `re:` with an invalid regexp (patternutil.MatchPattern logs and drops the pattern: nothing matches = unmet,
+	//   NOT an evaluation error). See preUnmet in monitor.go.
+	Pre      int    `json:"pre"`
 	Fails    int    `json:"fails"`         // fail the first k attempts; -1 = always
 	Out      bool   `json:"out,omitempty"` // the step declares `output:`
 	Obeys    bool   `json:"obeys"`
@@ -139,6 +145,8 @@ type nodeCase struct {
 	// Pre == 3: the precondition is a command that blocks on a fifo until the harness answers it
 	// (op "pre i"); PreVal 1 = met, 2 = unmet, 3 = met at the first evaluation and unmet at every later one
 	// (what the precondition reads changes while the run goes on: a retried step is re-checked when it is handed back)
+	// PreVal 4 = the evaluation FAILS (the condition's command exits 3 once the harness has answered), 5 = met at the
+	// first evaluation, evaluation error at every later one
 	PreVal int `json:"prev"`
 }
 
@@ -222,17 +230,40 @@ func stepOf(cid string, i int, nc nodeCase) dag.Step {
 	if nc.Pre == 3 {
 		p := fifoPath(i)
 		_ = syscall.Mkfifo(p, 0o600)
-		s.Preconditions = []dag.Condition{{Condition: "`cat " + p + "`", Expected: "1"}}
-	} else if nc.Pre != 0 {
-		key := fmt.Sprintf("VERIF_PRE_%d", i)
-		v := "1"
-		if nc.Pre == 2 {
-			v = "0"
+		cond := "`cat " + p + "`"
+		if nc.PreVal >= 4 {
+			// the harness can also make the evaluation FAIL: answer "e" = the condition's command exits with status 3
+			// (the reader on the fifo is still a `cat <fifo>` process, which is what pendingPre looks for)
+			sh := fmt.Sprintf("%s/pre-%d.sh", fifoDir, i)
+			_ = os.WriteFile(sh, []byte("#!/bin/sh\nv=$(cat "+p+")\n[ \"$v\" = e ] && exit 3\necho \"$v\"\n"), 0o700)
+			cond = "`" + sh + "`"
 		}
-		os.Setenv(key, v)
-		s.Preconditions = []dag.Condition{{Condition: "$" + key, Expected: "1"}}
+		s.Preconditions = []dag.Condition{{Condition: cond, Expected: "1"}}
+	} else if nc.Pre != 0 {
+		s.Preconditions = []dag.Condition{staticCondition(i, nc.Pre)}
 	}
 	return s
+}
+
+// staticCondition: the precondition of flavour `pre` (see nodeCase.Pre) for step i
+func staticCondition(i, pre int) dag.Condition {
+	key := fmt.Sprintf("VERIF_PRE_%d", i)
+	os.Setenv(key, "1")
+	switch pre {
+	case 2:
+		os.Setenv(key, "0")
+	case 4:
+		return dag.Condition{Condition: "`false`", Expected: "1"}
+	case 5:
+		return dag.Condition{Condition: "`/nonexistent/verif-no-such-command`", Expected: "1"}
+	case 6:
+		return dag.Condition{Condition: "$" + key, Expected: "re:^[1-9]$"}
+	case 7:
+		return dag.Condition{Condition: "$" + key, Expected: "re:^[2-9]$"}
+	case 8:
+		return dag.Condition{Condition: "$" + key, Expected: "re:[1"}
+	}
+	return dag.Condition{Condition: "$" + key, Expected: "1"}
 }
 
 var fifoDir string
@@ -532,10 +563,11 @@ func runCase(c schedCase, quiet time.Duration) (res result) {
 			if k >= len(s.Flight) {
 				i := s.Pending[k-len(s.Flight)]
 				pv := c.Nodes[i].PreVal
-				if pv == 3 {
+				if pv == 3 || pv == 5 {
+					later := pv - 1 // 3: unmet (2) at every later evaluation, 5: evaluation error (4)
 					pv = 1
 					if preAnswers[i] > 0 {
-						pv = 2
+						pv = later
 					}
 				}
 				op = fmt.Sprintf("pre %d %d", i, pv)
@@ -616,6 +648,8 @@ func runCase(c schedCase, quiet time.Duration) (res result) {
 			if err == nil {
 				if v == 1 {
 					f.WriteString("1\n")
+				} else if v == 4 {
+					f.WriteString("e\n") // the condition's command fails: the precondition cannot be evaluated
 				} else {
 					f.WriteString("0\n")
 				}
@@ -722,6 +756,8 @@ func main() {
 				graphCase(line, out)
 			case "yaml":
 				yamlCaseRun(line, out)
+			case "yamlaccept":
+				yamlAcceptCase(line, out)
 			}
 		}
 		if err != nil {
